@@ -1,11 +1,18 @@
 (* C19 - A rejected legacy operation changes nothing.
-   ONLY statements; proofs are `exact <lemma of Proofs/LegacyProofs.v>`.
+   ONLY statements; proofs are `exact <lemma of Proofs/Legacy*.v>`.
 
    STATUS: NOT a proof of the property: pyoak's deprecated legacy code violates C19 through several rollback paths
-   (witnesses below).  Proved: the frame for the rejections that are decided before anything is mutated
+   (witnesses below).  Proved, round 1: the frame for the rejections that are decided before anything is mutated
    (forbidden replace keys; the three pre-checks of replace_with; duplicate children and ASTNodeIDCollisionError
-   of the constructor), each stated from the CAUSE of the rejection, hence `_partial`: no frame is claimed for
-   rejections raised while attaching (constructor, attach, replace, replace_with, the transformations). *)
+   of the constructor), from the error the caller sees where the error kind identifies the phase, otherwise from
+   the CAUSE of the rejection (`_partial`).  Round 2 (end of this file): attach() rejected on the leftmost path
+   (at the receiver or at the first child, recursively: nothing was attached yet) changes nothing; a rejected
+   attach() or constructor, WHEREVER it fails, keeps the content part of the frame (fields, id, original_id,
+   content_id of every pre-existing node: only links and registry can be left changed - which is what the open
+   findings are about); replace_with(None) raising ASTNodeReplaceWithError changed nothing (from the error seen);
+   detach()/detach_self() raise no documented error at all.  No frame is claimed for the link / registry part of
+   rejections raised while attaching at a later child (constructor, attach, replace, replace_with, the
+   transformations): that is where the code is wrong. *)
 From Oak Require Import Spec.LegacySpec Proofs.LegacyProofs Proofs.LegacyInv.
 From Coq Require Import List String Ascii ZArith Bool Arith.
 Import ListNotations.
@@ -93,3 +100,58 @@ Proof. exact refuted_replace_with_evicts_twin. Qed.
 Theorem C19_refuted_attach_partial :
   exists s s', run_ok empty_st h_L5 = Some s /\ step Hid ct0 s o_L5 = (s', RErr EReg) /\ ~ Frame s s'.
 Proof. exact refuted_attach_partial. Qed.
+
+(* ====================================================================================================== *)
+(* Round 2                                                                                                  *)
+(* ====================================================================================================== *)
+From Oak Require Import Spec.LegacySpec2 Proofs.LegacyFrames2 Proofs.LegacyExamples2.
+
+(* attach() rejected before anything was attached: the collision is met at the receiver, or at the first child
+   (recursively: first_reject, Proofs/LegacyFrames2.v).  The call raises a documented error and the state is
+   unchanged.  From the cause: the error kinds of an attach() rejected at a LATER child are the same, and that case is
+   refuted (C19_refuted_attach_partial). *)
+Theorem C19_reject_frame_attach_first_partial : forall H ct s a,
+  Rank s -> live s a -> detached s a = true -> first_reject s a ->
+  exists e, step H ct s (OAttach a) = (s, RErr e) /\ documented e = true /\ Frame s s.
+Proof. exact frame_attach_first. Qed.
+Example C19_reject_frame_attach_first_example :
+  run_ok empty_st y_ops = Some y_s /\ Rank y_s /\ live y_s 1 /\ detached y_s 1 = true /\ first_reject y_s 1 /\
+  step Hid ct0 y_s (OAttach 1) = (y_s, RErr EReg).
+Proof. exact y_example_attach_first. Qed.
+
+(* from the error the caller sees, wherever the rejection happens: a rejected attach() / constructor leaves the
+   fields, id, original_id and content_id of every pre-existing node as they were (same_content).  The other half of
+   the frame (attached?, position, registry keys) is exactly what the open findings C19:Attach:*:links and
+   C19:New:*:links violate. *)
+Theorem C19_reject_attach_content_partial : forall H ct s a s' e,
+  step H ct s (OAttach a) = (s', RErr e) -> same_content s s'.
+Proof. exact attach_rejected_content. Qed.
+Theorem C19_reject_new_content_partial : forall H ct s cls org fs idarg eu ad cd s' e,
+  step H ct s (ONew cls org fs idarg eu ad cd) = (s', RErr e) -> same_content s s'.
+Proof. exact new_rejected_content. Qed.
+(* premises inhabited by rejections that do leave partial effects (the round-1 witnesses) *)
+Example C19_reject_content_example :
+  (exists s s', run_ok empty_st h_L5 = Some s /\ step Hid ct0 s o_L5 = (s', RErr EReg) /\ ~ Frame s s') /\
+  (exists s s', run_ok empty_st h_L2 = Some s /\ step Hid ct0 s o_L2 = (s', RErr EPar) /\ ~ Frame s s').
+Proof. exact y_example_content. Qed.
+
+(* from the error the caller sees: replace_with(None) that raises ASTNodeReplaceWithError changed nothing (with None
+   there is nothing to attach, so the only source of that error is the optionality pre-check) *)
+Theorem C19_reject_frame_replace_with_none : forall H ct s a s',
+  step H ct s (OReplaceWith a None) = (s', RErr ERw) -> Frame s s'.
+Proof. exact frame_replace_with_none_rejected. Qed.
+Example C19_reject_frame_replace_with_none_example :
+  exists s, run_ok empty_st [leaf "a"; leaf "b"; inner (Some 0) None []]%string = Some s /\
+            step Hid ct0 s (OReplaceWith 0 None) = (s, RErr ERw).
+Proof. exact y_example_replace_with_none. Qed.
+
+(* detach() and detach_self() raise no documented error: C19 asks nothing of them *)
+Theorem C19_detach_raises_no_documented_error : forall H ct s a s' e,
+  documented e = true ->
+  step H ct s (ODetach a) <> (s', RErr e) /\ step H ct s (ODetachSelf a) <> (s', RErr e).
+Proof. exact detach_no_documented_error. Qed.
+Example C19_detach_example :
+  exists s, run_ok empty_st [leaf "a"; inner (Some 0) None []]%string = Some s /\
+            snd (step Hid ct0 s (ODetach 1)) = RBool true /\ snd (step Hid ct0 s (ODetachSelf 1)) = RBool true /\
+            documented ERep = true.
+Proof. exact y_example_detach. Qed.
